@@ -241,7 +241,10 @@ fn gen_rule_inner(rng: &R, id: &str) -> Value {
     if rng.sane() { names.sort(); names.dedup(); }
     let markers: Vec<Value> = names.iter().map(|n| gen_marker(rng, n)).collect();
     let path = if !names.is_empty() && rng.chance(3, 4) { let mut p = String::from(*rng.pick(&["/", "/a/", "/x-", ""])); for n in &names { p.push('@'); p.push_str(n); p.push_str(rng.ps(&["", "/", "-", ".html", "@"])); } p } else { pool_or_wild(rng, PATHS) };
-    let host: Value = match rng.below(10) { 0 => json!(pool_or_wild(rng, HOSTS)), 1 if !names.is_empty() => json!(format!("@{}.example.org", names[0])), _ => Value::Null };
+    let host: Value = match rng.below(10) { 0 => json!(pool_or_wild(rng, HOSTS)), 1 if !names.is_empty() => json!(format!("@{}.example.org", names[0])),
+        // marker hosts that share a NON-ASCII literal prefix with another rule of the set: the host tree splits nodes at
+        // a character index inside multi-byte text
+        2 if !names.is_empty() => json!(format!("{}@{}{}", rng.ps(&["caf\u{e9}", "caf\u{e9}-", "\u{4f8b}\u{3048}", "\u{e9}", "x\u{1f600}y"]), names[0], rng.ps(&[".example.org", ".jp", "-b.org"]))), _ => Value::Null };
     let mut source = json!({
         "scheme": maybe(rng, 1, 12, json!(pick_s(rng, SCHEMES))), "host": host,
         "ips": maybe(rng, 1, if rng.sane() { 20 } else { 5 }, json!((0..(1 + rng.below(3))).map(|_| if rng.chance(1, 2) { json!({"in_range": pool_or_wild(rng, IPS)}) } else { json!({"not_in_range": pool_or_wild(rng, IPS)}) }).collect::<Vec<_>>())),
@@ -813,7 +816,13 @@ fn run_family(ep: &Ep, inp: &Value) -> Obs {
 }
 
 // ------------------------------------------------------------------------------------------------ one case
-const FLAG_SECS: f64 = 2.0;     // slower than this = "timed out" in the verdict
+const FLAG_SECS: f64 = 2.0;     // more CPU time than this in the worker thread = "timed out" in the verdict (CPU time,
+                                // not wall-clock time: a loaded machine must not raise an alarm)
+fn thread_cpu_secs() -> f64 {
+    let mut ts = libc::timespec { tv_sec: 0, tv_nsec: 0 };
+    if unsafe { libc::clock_gettime(libc::CLOCK_THREAD_CPUTIME_ID, &mut ts) } != 0 { return 0.0; }
+    ts.tv_sec as f64 + ts.tv_nsec as f64 * 1e-9
+}
 const GIVE_UP_SECS: u64 = 20;   // the watchdog stops the harness: the hung thread cannot be killed
 
 /// Panics that are LISTED open findings (known_findings.json, property C07, field "code"): recognised by the panic
@@ -833,16 +842,18 @@ pub fn run_case(id: usize, input: &Value) {
     let (inp, ep2) = (input.clone(), ep.clone());
     let t0 = std::time::Instant::now();
     let handle = std::thread::Builder::new().name(format!("c07-{}", id)).stack_size(8 << 20).spawn(move || {
+        let c0 = thread_cpu_secs();
         let r = catch(std::panic::AssertUnwindSafe(|| run_family(&ep2, &inp)));
-        let _ = tx.send(r);
+        let _ = tx.send((r, thread_cpu_secs() - c0));
     });
     let fam = input["fam"].as_str().unwrap_or("?").to_string();
     let mut tags: Vec<String> = vec![format!("fam:{}", fam)];
+    let mut cpu_secs = 0.0f64;
     let (panicked, timed_out, obs, panic_msg): (bool, bool, Obs, Option<String>) = match handle {
         Err(e) => (false, true, Obs::default(), Some(format!("cannot spawn: {}", e))),
         Ok(h) => match rx.recv_timeout(std::time::Duration::from_secs(GIVE_UP_SECS)) {
-            Ok(Ok(o)) => { let _ = h.join(); (false, t0.elapsed().as_secs_f64() > FLAG_SECS, o, None) }
-            Ok(Err(msg)) => { let _ = h.join(); (true, false, Obs::default(), Some(msg)) }
+            Ok((Ok(o), cpu)) => { let _ = h.join(); cpu_secs = cpu; (false, cpu > FLAG_SECS, o, None) }
+            Ok((Err(msg), cpu)) => { let _ = h.join(); cpu_secs = cpu; (true, false, Obs::default(), Some(msg)) }
             Err(_) => (false, true, Obs::default(), Some(format!("no return within {} s: harness stops here", GIVE_UP_SECS))),
         },
     };
@@ -858,7 +869,7 @@ pub fn run_case(id: usize, input: &Value) {
     let known = if panicked { known_class(panic_msg.as_deref().unwrap_or("")) } else { 0 };
     if known != 0 { tags.push(format!("known-finding-code:{}", known)); }
     let coq = format!("{{| k_family := {}%N; k_slice := {}; o_panicked := {}; o_timed_out := {}; o_slice_out := {}; o_known := {}%N |}}", family_code(&fam), k_slice, cq_bool(panicked), cq_bool(timed_out), o_slice, known);
-    emit(id, &coq, input.clone(), &tags, obs.deep, json!({"panic": panic_msg, "seconds": (secs * 1000.0).round() / 1000.0, "last_entry": eps.last(), "notes": obs.notes}));
+    emit(id, &coq, input.clone(), &tags, obs.deep, json!({"panic": panic_msg, "seconds": (secs * 1000.0).round() / 1000.0, "cpu_seconds": (cpu_secs * 1000.0).round() / 1000.0, "last_entry": eps.last(), "notes": obs.notes}));
     if secs >= GIVE_UP_SECS as f64 { let _ = std::io::stdout().flush(); std::process::exit(3); }
 }
 
